@@ -94,3 +94,7 @@ Definition cool (t a : float) : float := (t * a)%float.
 (* setAcceptanceProbability(math.Min(Guaranteed, probability)) is only ever called with probability =
    Guaranteed = 1: the stored value is 1. *)
 Definition guaranteed : float := 1%float.
+
+(* ---- boolean hypotheses of the schedule theorems (the validators' ranges, NaN excluded) ---- *)
+Definition factor_in_range (f : float) : bool := PrimFloat.leb 0 f && PrimFloat.leb f 1.
+Definition exact_int_range (z : Z) : bool := ((1 <=? z) && (z <=? 2 ^ 53))%Z.
